@@ -25,8 +25,12 @@ type httpResult struct {
 }
 
 func doHTTP(h http.Handler, method, ctype, body string) httpResult {
+	return doHTTPCtx(context.Background(), h, method, ctype, body)
+}
+
+func doHTTPCtx(ctx context.Context, h http.Handler, method, ctype, body string) httpResult {
 	w := httptest.NewRecorder()
-	r := httptest.NewRequest(method, "/", strings.NewReader(body))
+	r := httptest.NewRequest(method, "/", strings.NewReader(body)).WithContext(ctx)
 	if ctype != "-" {
 		r.Header.Set("Content-Type", ctype)
 	}
@@ -279,7 +283,11 @@ func c18Bodies(maxLen int) *Scenario {
 }
 
 // c18Concurrent: several HTTP callers posting concurrently to one bridge.
-func c18Concurrent(bodyIdx []int, b Bounds) *Scenario {
+func c18Concurrent(bodyIdx []int, b Bounds) *Scenario { return c18ConcurrentX(bodyIdx, false, b) }
+
+// hangup: caller 0 goes away (its request context ends) at an arbitrary moment; what it gets is
+// its own business, the other callers must be served as if it had not been there.
+func c18ConcurrentX(bodyIdx []int, hangup bool, b Bounds) *Scenario {
 	mem := c18Members()
 	type cbody struct {
 		text    string
@@ -312,8 +320,8 @@ func c18Concurrent(bodyIdx []int, b Bounds) *Scenario {
 		desc = append(desc, names[k])
 	}
 	return &Scenario{
-		Name:   fmt.Sprintf("%d concurrent HTTP callers: %s", len(bodyIdx), strings.Join(desc, " | ")),
-		Params: map[string]any{"callers": len(bodyIdx), "bodies": desc},
+		Name:   fmt.Sprintf("%d concurrent HTTP callers: %s%s", len(bodyIdx), strings.Join(desc, " | "), map[bool]string{true: " (caller 0 hangs up)", false: ""}[hangup]),
+		Params: map[string]any{"callers": len(bodyIdx), "bodies": desc, "caller0_hangs_up": hangup},
 		Bounds: b,
 		New: func() *Instance {
 			results := make([]httpResult, len(bodyIdx))
@@ -321,16 +329,27 @@ func c18Concurrent(bodyIdx []int, b Bounds) *Scenario {
 			body := func() {
 				br := newBridge(&tags, true)
 				// a request served earlier on the same bridge (state left behind by it must not leak into later ones)
-				doHTTP(br, "POST", "application/json", `[{"jsonrpc":"2.0","id":77,"method":"echo","params":["warm-cW"]},{"jsonrpc":"2.0","id":78,"method":"echo","params":["warm2-cW"]}]`)
-				doHTTP(br, "POST", "application/json", `{"jsonrpc":"2.0","id":1,`) // a rejected request is part of the history too
-				doHTTP(br, "POST", "application/json", `[]`)
-				doHTTP(br, "GET", "application/json", ``)
-				vs.AwaitQuiescence()
+				if !hangup {
+					doHTTP(br, "POST", "application/json", `[{"jsonrpc":"2.0","id":77,"method":"echo","params":["warm-cW"]},{"jsonrpc":"2.0","id":78,"method":"echo","params":["warm2-cW"]}]`)
+					doHTTP(br, "POST", "application/json", `{"jsonrpc":"2.0","id":1,`) // a rejected request is part of the history too
+					doHTTP(br, "POST", "application/json", `[]`)
+					doHTTP(br, "GET", "application/json", ``)
+					vs.AwaitQuiescence()
+				}
 				var j Join
+				ctx0, cancel0 := context.WithCancel(context.Background())
+				defer cancel0()
+				if hangup {
+					j.Go("hangup", func() { vs.Event("env", "hangup"); cancel0() })
+				}
 				for c, k := range bodyIdx {
 					c, k := c, k
 					j.Go(fmt.Sprintf("http%d", c), func() {
-						results[c] = doHTTP(br, "POST", "application/json", mk(c, k).text)
+						ctx := context.Background()
+						if hangup && c == 0 {
+							ctx = ctx0
+						}
+						results[c] = doHTTPCtx(ctx, br, "POST", "application/json", mk(c, k).text)
 						vs.Yield("http-ret")
 						vs.Note("http", fmt.Sprint(c), fmt.Sprint(results[c].Status), results[c].Body)
 					})
@@ -344,6 +363,9 @@ func c18Concurrent(bodyIdx []int, b Bounds) *Scenario {
 					return v
 				}
 				for c, k := range bodyIdx {
+					if hangup && c == 0 {
+						continue
+					}
 					bd := mk(c, k)
 					var mine []string
 					for _, t := range tags {
@@ -370,6 +392,7 @@ func c18Scenarios(tier string) []*Scenario {
 			c18Concurrent([]int{0, 1}, Bounds{1, 1, 0}),
 			c18Concurrent([]int{2, 0}, Bounds{1, 1, 0}),
 			c18Concurrent([]int{0, 3}, Bounds{1, 1, 0}),
+			c18ConcurrentX([]int{0, 0}, true, Bounds{1, 1, 0}),
 		}
 	}
 	out := []*Scenario{c18Bodies(3)}
@@ -378,6 +401,7 @@ func c18Scenarios(tier string) []*Scenario {
 			out = append(out, c18Concurrent([]int{a, b}, Bounds{2, 1, 0}))
 		}
 	}
+	out = append(out, c18ConcurrentX([]int{0, 0}, true, Bounds{2, 2, 0}), c18ConcurrentX([]int{1, 0}, true, Bounds{2, 1, 0}), c18ConcurrentX([]int{0, 1}, true, Bounds{2, 1, 0}))
 	out = append(out, c18Concurrent([]int{0, 0}, Bounds{2, 2, 0}), c18Concurrent([]int{0, 0, 0}, Bounds{1, 1, 0}), c18Concurrent([]int{0, 1, 2}, Bounds{1, 0, 0}))
 	return out
 }
